@@ -239,6 +239,10 @@ def main(argv=None):
             'evaluations': tot.execs,
             'distinct_nontrivial': tot.nontrivial,
             'rule': getattr(_mod, 'RULE', ''),
+            'states_meaning': getattr(_mod, 'STATES_MEANING',
+                                      'stateless exploration: "states" counts the configurations whose execution space was '
+                                      'enumerated completely (within the stated bound); "transitions" counts library calls / '
+                                      'scheduling steps executed; "traces_validated_against_impl" counts complete executions of the real code'),
             'exhaustive': not tot.caps and getattr(_mod, 'EXHAUSTIVE', True),
             'bounds': _mod.bounds(args.tier) if hasattr(_mod, 'bounds') else {},
             'tasks': len(tasks),
